@@ -1,11 +1,12 @@
 // ===================== std gaps =====================
 pub assume_specification [usize::checked_shl] (x: usize, s: u32) -> (r: Option<usize>)
     ensures s >= 64 ==> r is None, s < 64 ==> r == Some(((x as nat * vstd::arithmetic::power2::pow2(s as nat)) % 0x1_0000_0000_0000_0000nat) as usize);
+pub uninterp spec fn spec_ilog2(x: usize) -> u32;
 pub assume_specification [usize::ilog2] (x: usize) -> (r: u32)
     requires x > 0
-    ensures vstd::arithmetic::power2::pow2(r as nat) <= x < 2 * vstd::arithmetic::power2::pow2(r as nat), r < 64;
+    ensures vstd::arithmetic::power2::pow2(r as nat) <= x < 2 * vstd::arithmetic::power2::pow2(r as nat), r < 64, r == spec_ilog2(x);
 pub assume_specification [usize::checked_ilog2] (x: usize) -> (r: Option<u32>)
-    ensures x == 0 ==> r is None, x > 0 ==> r is Some && vstd::arithmetic::power2::pow2(r->Some_0 as nat) <= x < 2 * vstd::arithmetic::power2::pow2(r->Some_0 as nat) && r->Some_0 < 64;
+    ensures x == 0 ==> r is None, x > 0 ==> r is Some && vstd::arithmetic::power2::pow2(r->Some_0 as nat) <= x < 2 * vstd::arithmetic::power2::pow2(r->Some_0 as nat) && r->Some_0 < 64 && r->Some_0 == spec_ilog2(x);
 pub assume_specification<T, A: core::alloc::Allocator, I: IntoIterator<Item = T>> [<Vec<T, A> as Extend<T>>::extend] (v: &mut Vec<T, A>, it: I)
     ensures final(v)@ == old(v)@ + into_iter_seq(it);
 pub broadcast axiom fn ax_into_iter_seq_vec<T>(v: Vec<T>) ensures #[trigger] into_iter_seq(v) == v@;
